@@ -26,6 +26,9 @@ _CMG_LOOP = ("    while augmenting_path_for(residual_graph):\n        path = aug
              "        delta = min(residual_function[u][v] for (u, v) in path)\n"
              "        for (u, v) in path:\n" + _CMG_UPD)
 
+_CMG_INIT = ("    flow_function = [[0 for sh in range(dim)] for s in range(dim)]\n"
+             "    residual_graph, residual_function = residual_network(graph, flow_function)\n\n    while")
+
 _APWS = ("        try:\n            self.existing_shares[peerid].add(shnum)\n        except KeyError:\n"
          "            self.existing_shares[peerid] = set([shnum])\n")
 
@@ -440,6 +443,89 @@ MUTANTS = [
       "            for share in shares:\n                preexisting.add(share, server)\n",
       "        preexisting = {}\n        for server, shares in self.existing_shares.items():\n"
       "            for share in shares:\n                holders = set()\n                preexisting.setdefault(share, holders).add(server)\n", None),
+
+    # ---- C07.15 who may change the flow table
+    M("flow-greedy-warm-start-helper", HU, "def _compute_maximum_graph(graph, shareIndices):\n",
+      "def _greedy_initial_flow(graph, flow_function):\n    claimed = set()\n    for peer in graph[0]:\n"
+      "        for share in graph[peer]:\n            if share not in claimed:\n                claimed.add(share)\n"
+      "                flow_function[0][peer] = 1\n                flow_function[peer][0] = -1\n"
+      "                flow_function[peer][share] = 1\n                flow_function[share][peer] = -1\n"
+      "                break\n\n\ndef _compute_maximum_graph(graph, shareIndices):\n", "C07.15",
+      edits=[(HU, _CMG_INIT, _CMG_INIT.replace("\n    residual_graph", "\n    _greedy_initial_flow(graph, flow_function)\n    residual_graph", 1))],
+      note="seeded C07-H: first-fit units source->peer->share without the share->sink unit"),
+    M("flow-prematch-through-alias-and-keyword", HU, "def _compute_maximum_graph(graph, shareIndices):\n",
+      "def _prematch_single_share_peers(graph, f):\n    for peer in graph[0]:\n        if len(graph[peer]) == 1:\n"
+      "            row = f[peer]\n            row[graph[peer][0]] = 1\n            f[0][peer] = 1\n\n\n"
+      "def _compute_maximum_graph(graph, shareIndices):\n", "C07.15",
+      edits=[(HU, _CMG_INIT, _CMG_INIT.replace("\n    residual_graph", "\n    warm = flow_function\n    _prematch_single_share_peers(graph, f=warm)\n    residual_graph", 1))],
+      note="another helper, handed the table through an alias and a keyword, writing through a row object"),
+    M("flow-rows-preloaded-through-row-objects", HU, _CMG_INIT,
+      _CMG_INIT.replace("\n    residual_graph", "\n    taken = set()\n    for peer in graph[0]:\n        row = flow_function[peer]\n"
+                        "        for share in graph[peer]:\n            if share not in taken:\n                taken.add(share)\n"
+                        "                row[share] = 1\n                flow_function[0].__setitem__(peer, 1)\n"
+                        "                break\n    residual_graph", 1), "C07.15",
+      note="the same warm start written inline through row objects: no 2-D store for rule 6 to see"),
+    M("flow-source-row-replaced", HU, _CMG_INIT,
+      _CMG_INIT.replace("\n    residual_graph", "\n    flow_function[0] = [1 if v in graph[0] else 0 for v in range(dim)]\n    residual_graph", 1),
+      "C07.15", note="every source edge saturated up front: no augmenting path is ever found"),
+    M("flow-residual-network-clamps-the-flow", HU,
+      "                new_graph[i].append(v)\n                cf[i][v] = 1\n                cf[v][i] = -1\n",
+      "                new_graph[i].append(v)\n                cf[i][v] = 1\n                cf[v][i] = -1\n                f[i][v] = 0\n",
+      "C07.15", note="the callee that is given the table on every round writes into it: a cancelled unit (-1 on the way back) is "
+      "forgotten, flow out of a vertex no longer equals flow in"),
+    M("flow-nested-function-writer", HU, _CMG_INIT,
+      _CMG_INIT.replace("\n    residual_graph", "\n    def claim(p, s):\n        flow_function[p][s] = 1\n        flow_function[0][p] = 1\n"
+                        "    for p in graph[0]:\n        if graph[p]:\n            claim(p, graph[p][0])\n    residual_graph", 1), "C07.15",
+      note="the writer is a nested function that reaches the table through its free variable"),
+    M("flow-benign-read-only-checker", HU, "def _compute_maximum_graph(graph, shareIndices):\n",
+      "def _assert_skew_symmetric(f):\n    for u in range(len(f)):\n        row = f[u]\n        for v in range(len(row)):\n"
+      "            assert row[v] == -f[v][u]\n\n\ndef _compute_maximum_graph(graph, shareIndices):\n", None,
+      edits=[(HU, "    new_mappings = {}\n    for shareIndex in shareIndices:\n",
+              "    _assert_skew_symmetric(flow_function)\n    new_mappings = {}\n    for shareIndex in shareIndices:\n")],
+      note="the table is handed to a function that only reads it"),
+    M("flow-benign-rows-read-and-copied", HU, "    new_mappings = {}\n    for shareIndex in shareIndices:\n",
+      "    out_of_source = list(flow_function[0])\n    assert all(x in (0, 1) for x in out_of_source)\n"
+      "    assert sum(out_of_source) == sum(-row[dim - 1] for row in flow_function)\n"
+      "    new_mappings = {}\n    for shareIndex in shareIndices:\n", None),
+
+    # ---- C07.16 no state that outlives the call
+    M("state-reindex-cached-by-identity", HU,
+      "    item_to_index = {}\n    index_to_item = {}\n    for item in items:\n",
+      "    key = (id(items), len(items), base)\n    if key in _reindex_cache:\n        return _reindex_cache[key]\n"
+      "    item_to_index = {}\n    index_to_item = {}\n    _reindex_cache[key] = (item_to_index, index_to_item)\n    for item in items:\n", "C07.16",
+      edits=[(HU, "def _reindex(items, base):\n", "_reindex_cache = {}\n\ndef _reindex(items, base):\n")],
+      note="a set of servers that changed between two placements (same object, same size) keeps its old numbering"),
+    M("state-mappings-remembered-on-the-function", HU,
+      "    peer_to_index, index_to_peer = _reindex(peers, 1)\n    share_to_index, index_to_share = _reindex(shares, len(peers) + 1)\n    shareIndices",
+      "    last_map, last_sizes, last_result = _calculate_mappings.last\n"
+      "    if servermap is not None and last_map is servermap and last_sizes == (len(peers), len(shares)):\n        return dict(last_result)\n"
+      "    peer_to_index, index_to_peer = _reindex(peers, 1)\n    share_to_index, index_to_share = _reindex(shares, len(peers) + 1)\n    shareIndices",
+      "C07.16",
+      edits=[(HU, "    max_graph = _compute_maximum_graph(graph, shareIndices)\n    return _convert_mappings(index_to_peer, index_to_share, max_graph)\n",
+              "    max_graph = _compute_maximum_graph(graph, shareIndices)\n    result = _convert_mappings(index_to_peer, index_to_share, max_graph)\n"
+              "    _calculate_mappings.last = (servermap, (len(peers), len(shares)), result)\n    return result\n\n"
+              "_calculate_mappings.last = (None, None, None)\n")],
+      note="the seeded C08-H mechanism at the placement: remembered on a function attribute"),
+    M("state-placement-remembered-in-a-global", HU,
+      "    if not peers:\n        return dict()\n",
+      "    global _last_placement\n    if not peers:\n        return dict()\n"
+      "    if _last_placement[0] is peers_to_shares and _last_placement[1] == (len(peers), len(readonly_peers), len(shares)):\n"
+      "        return dict(_last_placement[2])\n    _last_placement = (peers_to_shares, (len(peers), len(readonly_peers), len(shares)), {})\n",
+      "C07.16",
+      edits=[(HU, "def share_placement(peers, readonly_peers, shares, peers_to_shares):\n",
+              "_last_placement = (None, None, None)\n\ndef share_placement(peers, readonly_peers, shares, peers_to_shares):\n")]),
+    M("state-benign-call-counter", HU, "    if not peers:\n        return dict()\n",
+      "    global _placements_computed\n    _placements_computed += 1\n    _placement_sizes.append(len(shares))\n"
+      "    if not peers:\n        return dict()\n", None,
+      edits=[(HU, "def share_placement(peers, readonly_peers, shares, peers_to_shares):\n",
+              "_placements_computed = 0\n_placement_sizes = []\n\ndef share_placement(peers, readonly_peers, shares, peers_to_shares):\n")],
+      note="statistics that are written but never read by the computation"),
+    M("state-benign-lazily-built-constant", HU, "    if not peers:\n        return dict()\n",
+      "    global _NO_PLACEMENT\n    if _NO_PLACEMENT is None:\n        _NO_PLACEMENT = {}\n"
+      "    if not peers:\n        return dict(_NO_PLACEMENT)\n", None,
+      edits=[(HU, "def share_placement(peers, readonly_peers, shares, peers_to_shares):\n",
+              "_NO_PLACEMENT = None\n\ndef share_placement(peers, readonly_peers, shares, peers_to_shares):\n")],
+      note="a module-level value built on first use from constants only: not state of earlier calls"),
 
     # ---- vanished anchors
     M("vanish-flow-graph", HU, "def _servermap_flow_graph(peers, shares, servermap):", "def _servermap_flow_graphX(peers, shares, servermap):",
